@@ -50,6 +50,7 @@ def psm_frame(
     id_prefix="",
     twin=False,
     colliding_keys=False,
+    flag_feature=False,
 ):
     """Build a PSM table.  `mults` = list of spectrum multiplicities (rows per spectrum).
 
@@ -118,6 +119,14 @@ def psm_frame(
     if twin and n_noise >= 1:
         # a second, comparably strong feature of the opposite orientation (p-value like)
         data["f1"] = -(rng.normal(0.0, 1.0, n) + np.where(correct, sep, 0.0)) * informative_sign
+    if flag_feature and n_noise >= 1:
+        # a two-valued indicator (e.g. "spectral library match") that marks nearly all correct targets and a few decoys:
+        # the best single feature although it cannot order PSMs inside its two tie groups
+        flag = correct & (rng.random(n) < 0.97)
+        dec_idx = np.flatnonzero(~is_target)
+        flag[dec_idx[: max(1, len(dec_idx) // 150)]] = True
+        data["f1"] = flag.astype(float) * informative_sign
+        data["f0"] = data["f0"] - np.where(correct, 0.6 * sep, 0.0) * informative_sign  # the continuous feature is the weaker one
     if with_rid:
         data["rid"] = (file_index * 1_000_000 + np.arange(n)).astype(float)
     npep = n_peptides or max(2, n // 2)
